@@ -420,6 +420,9 @@ def object_case(rng, idx, stats):
             names = list(sel)
         ops.append("w.mk %d %d %d %s" % (k, fid, cls, seltok))
         regs[k] = dict(names=names, cls=cls, fid=fid, kind=kind)
+        if rng.random() < 0.5:
+            ops.append("w.use %d" % k)
+            ops.append("w.names")
         st("ob_ctor_" + kind); st("ob_cls%d" % cls)
 
     def use(k):
@@ -447,10 +450,12 @@ def object_case(rng, idx, stats):
             ns = named(r)
             ops.append("w.touch %d %s" % (len(ns), " ".join(str(i) for i in ns)))
         elif x < 0.62:
-            ops.append("w.get")
+            ops.append(rng.choice(["w.get", "w.get", "w.names"]))
         elif x < 0.72:
             y = rng.random()
-            if y < 0.3:
+            if y < 0.08:
+                ops.append("w.fire")
+            elif y < 0.3:
                 ops.append("w.pv %d %s" % (rng.choice(r["names"]), hx(coord(rng))))
             elif y < 0.5:
                 ops.append("w.all %s" % " ".join(hx(coord(rng)) for _ in r["names"]))
